@@ -149,6 +149,11 @@ def main(pid):
     if batch:
         rep.sample({"text": meta[batch[0]["id"]][1][:300], "opts": meta[batch[0]["id"]][2],
                     "events": [e["ev"] for e in batch[0]["events"]][:20]})
+    if pid == "C04":
+        import pycallcheck
+        pycallcheck.run(rep, thorough)
+        rep.assumptions += ["executed half: modules of the 'call' profile only (basic / string / declared-class parameter types), top "
+                            "namespace [''], no ignore list; the library is rendered by harness/cpplib.py from the specification's tree"]
     rep.assumptions += ["the scanner harness/proj_py.py (validated on the repository's golden outputs) is trusted",
                         "Expected is computed from the instantiated tree the implementation built (C02/C08 judge that tree)"]
     return rep.finish()
